@@ -28,6 +28,7 @@ import Vlsp.Model.Pos
 import Vlsp.Model.Pypi
 import Vlsp.Props.C04Layout
 import Vlsp.Props.C04LayoutToml
+import Vlsp.Props.C04LayoutPy
 import Vlsp.Model.Config
 
 /-! Line-protocol plumbing shared by the driver's op tables. -/
@@ -512,8 +513,17 @@ def atableStr (t : C04.ATable) : String :=
     ";".intercalate (t.pairs.map fun p => ",".intercalate (p.map atokStr)) ++ "|" ++
     ";".intercalate (t.leafPairs.map fun p => ",".intercalate (p.map aleafStr)) ++ "]"
 
+def ptokStr : C04.PTok → String
+  | .key t => s!"k{hex t}"
+  | .array strs => "[" ++ ",".intercalate (strs.map hex) ++ "]"
+  | .other => "o"
+
+def ptableStr (t : C04.PTable) : String :=
+  "[" ++ (match t.name with | some n => hex n | none => "-") ++ "|" ++
+    ";".intercalate (t.pairs.map fun p => ",".intercalate (p.map ptokStr)) ++ "]"
+
 /-- `x.abs <eco> <text> <dump>` : the abstract reading of the real tree (the premise of the layout theorems):
-    abstract JSON for package.json / deno.json, abstract TOML for Cargo.toml -/
+    abstract JSON for package.json / deno.json, abstract TOML for Cargo.toml and pyproject.toml -/
 def absStep (op : String) (f : List Text) : Option String :=
   match op, f with
   | "x.abs", [eco, text, dump] =>
@@ -521,6 +531,7 @@ def absStep (op : String) (f : List Text) : Option String :=
     | none => some "-"
     | some tree =>
       if eco == "crates".toList then some (" ".intercalate ((C04.normToml (C04.absToml text tree)).map atableStr))
+      else if eco == "pypi".toList then some (" ".intercalate ((C04.normPy (C04.absPy text tree)).map ptableStr))
       else some (match C04.absRoot text tree with | some a => ajsonStr a | none => "-")
   | _, _ => none
 
